@@ -220,7 +220,9 @@ func genTPs(r *Rng, i int, tier string) string {
 		case 5:
 			// GREASE with overrides
 			id := 27 + 31*(r.U64()%148764065110560900)
-			ps = append(ps, fmt.Sprintf("g:%d:%s:0", id, hx(r.Bytes(1+r.Intn(20)))))
+			// a non-empty ValueOverride is used verbatim whatever Length says (0, equal, shorter, longer)
+			ov := r.Bytes(1 + r.Intn(20))
+			ps = append(ps, fmt.Sprintf("g:%d:%s:%d", id, hx(ov), Pick(r, []int{0, 0, len(ov), len(ov) + 1 + r.Intn(8), r.Intn(len(ov) + 1), r.Intn(40)})))
 		case 6:
 			// GREASE drawing its own id and/or value
 			ps = append(ps, fmt.Sprintf("g:%d:-:%d", Pick(r, []uint64{0, 26, 28, 58}), r.Intn(40)))
@@ -354,7 +356,8 @@ func c24GenTPNoPanic(r *Rng) string {
 		return fmt.Sprintf("vi%d:%d:%s", r.Intn(2), r.U64()&0xffffffff, a)
 	case 5:
 		id := 27 + 31*(r.U64()%148764065110560900)
-		return fmt.Sprintf("g:%d:%s:0", id, hx(r.Bytes(1+r.Intn(20))))
+		ov := r.Bytes(1 + r.Intn(20))
+		return fmt.Sprintf("g:%d:%s:%d", id, hx(ov), Pick(r, []int{0, 0, len(ov), len(ov) + 1 + r.Intn(8), r.Intn(len(ov) + 1), r.Intn(40)}))
 	case 6:
 		return fmt.Sprintf("g:%d:-:%d", Pick(r, []uint64{0, 26, 28, 58}), r.Intn(40))
 	default:
